@@ -3,14 +3,17 @@ CONSTANTS
   Orders <- OrdersAll
   Dts <- DtsP
   Targets <- TargQ
-  TsTargets <- TargQ
+  TsTargets <- TargV
   MaxTs = 1
+  MaxSweeps = 0
+  MaxQueued = 3
   PublicQueue = TRUE
+  DtChangeQueued = TRUE
+  FixQ = FALSE
   LeftRenormSite = 0
   FlipWrap = TRUE
   Ls <- LsAll
   Record = FALSE
-  SimLen = 3
-INVARIANT TimeExact
-INVARIANT TotalSums
+  SimLen = 4
+INVARIANT ProductFormula
 CHECK_DEADLOCK FALSE
